@@ -588,7 +588,7 @@ func RunReplayFile(repo, file string) (string, error) {
 	err = cmd.Run()
 	var keep []string
 	for _, l := range strings.Split(out.String(), "\n") {
-		if strings.Contains(l, "VERIF-REPLAY") || strings.Contains(l, "FAIL") || strings.Contains(l, "panic") || strings.Contains(l, "error") || strings.Contains(l, ".go:") {
+		if strings.Contains(l, "VERIF-REPLAY") || strings.Contains(l, "VERIF-BOUNDED") || strings.Contains(l, "FAIL") || strings.Contains(l, "panic") || strings.Contains(l, "error") || strings.Contains(l, ".go:") {
 			keep = append(keep, strings.TrimSpace(l))
 		}
 	}
